@@ -20,6 +20,7 @@ R3.11 wire keys / discriminator values are emitted as literals that evaluate to 
 R3.8  nullability written as a type array is read from the document node at every sibling site (never from IRSchema.type, a string)
 R3.5  recursion over field types: every field of every dataclass gets its nested types registered (no skip)
 R3.17 the dataclass hook factories resolve nested forward references before cattrs sees the class (tree-shaped models round-trip)        [= R16.13]
+R3.19 a JSON scalar of a primitive union is decoded as the variant of its own type, not coerced into an earlier one                          [= R14.15]
 R3.18 a discriminator without explicit mapping still selects the variant (implicit mapping)                                                  [= R14.14]
 """
 from __future__ import annotations
@@ -194,7 +195,7 @@ def run(repo: Repo, rep: Report, tier: str) -> None:
     # ---------------------------------------------------------------- R3.9 every discriminator value the spec maps is in the generated dispatch table
     from rules._reuse import reuse as _reuse39
 
-    _reuse39(repo, rep, "c14", {"R14.5": "R3.9"})
+    _reuse39(repo, rep, "c14", {"R14.5": "R3.9", "R14.15": "R3.19"})  # R3.19: a scalar of a primitive union keeps its JSON type (no coercion)
     # R3.11: wire keys and discriminator values are written into the generated model modules as Python literals that evaluate to the
     # spec's own string (json.dumps with ensure_ascii=False: an astral-plane character is not turned into two lone surrogates)   [= R15.5]
     # R3.12: a conforming document of an un-discriminated union is decoded as the first declared variant that accepts it   [= R14.9]
